@@ -634,11 +634,27 @@ class Runner:
                 # the open of a data file fails: EIO is fatal for scrub (TASK_STATE_IOERROR), anything else is a file error
                 spec = 'open:%s:1:%d' % (os.path.join(a.root, t[1], t[2]), case['errno'])
                 lst = file_stripes(a, st1, t[1], t[2])
+            elif t[0] == 'parset':
+                # the parity reads of SEVERAL (or one of several) levels fail at the same stripe
+                spec = ','.join('pread:%s:%d:%d' % (parity_sub(l), t[2], case['errno']) for l in t[1])
+                lst = stripes
             else:
                 spec = 'pread:%s:%d:%d' % (parity_sub(t[1]), t[2], case['errno'])
                 lst = stripes
             j = t[-1] if t[0] != 'open' else 1
             pos = lst[j - 1] if j <= len(lst) else None
+            if case.get('prebad') and pos is not None:
+                # the stripe is already marked bad: an earlier scrub met an EIO on a data read there (the data is fine)
+                stripes0, _ = a.stripes(st1)
+                cand = [(b[1], b[2]['sub'].decode('latin1'), b[3]) for dp, b in sorted(stripes0.get(pos, {}).items()) if b[0] == 'BLK']
+                if not cand:
+                    return
+                d0, sub0, idx0 = cand[0]
+                a.run('scrub', '-p', 'full', shim_env={'VSHIM_FAIL': 'pread:%s:%d:%d' % (os.path.join(a.root, d0, sub0), idx0 + 1, EIO)})
+                st1 = a.content()
+                if not (st1['info'][pos] and st1['info'][pos]['bad']):
+                    self.stats['not_injected'] += 1
+                    return
             if case.get('touched') and t[0] == 'data':
                 # the file has a new time stamp since the sync (an unsynced file for scrub: is_timestamp_different)
                 pth = a.path(t[1], t[2])
@@ -665,8 +681,9 @@ class Runner:
             soft_eio = case['errno'] == EIO and t[0] != 'open' and not case.get('limit')
             if soft_eio and not (v['info'] and v['info']['bad']):
                 chk.violation('scrub_notbad', 'scrub: EIO at stripe %d (%s) but the stripe is not marked bad' % (pos, t), rep)
-            if soft_eio and r.summary().get('error_io') != '1':
-                chk.violation('scrub_count', 'scrub: one EIO injected but summary:error_io is %s' % r.summary().get('error_io'), rep)
+            n_inj = len(t[1]) if t[0] == 'parset' else 1
+            if soft_eio and r.summary().get('error_io') != str(n_inj):
+                chk.violation('scrub_count', 'scrub: %d EIO injected but summary:error_io is %s' % (n_inj, r.summary().get('error_io')), rep)
             # the stripe must not have been refreshed as scrubbed now
             i1 = st1['info'][pos]
             if v['info'] and i1 and v['info']['time'] != i1['time']:
@@ -686,7 +703,7 @@ class Runner:
                     isfile = blk is not None and blk[0] != 'DEL'
                     out = 'I' if (t[0] == 'data' and order.get(t[1]) == dp) else 'O1'
                     dt += ['1', '1' if (blk is not None and blk[0] != 'BLK') else '0', '1' if isfile else '0', '0', '1' if (isfile and blk[0] in ('BLK', 'REP')) else '0', out]
-                pl = ['I' if (t[0] == 'par' and t[1] == l) else 'P1' for l in range(a.np)]
+                pl = ['I' if ((t[0] == 'par' and t[1] == l) or (t[0] == 'parset' and l in t[1])) else 'P1' for l in range(a.np)]
                 req = ['scrub1', '100', '0', '7', str(i1['time'] if i1 else 0), str(int(i1['bad']) if i1 else 0), str(int(i1['rehash']) if i1 else 0),
                        str(int(i1['justsynced']) if i1 else 0), 'D', str(a.nd)] + dt + ['L', str(a.np)] + pl
                 out = run_lines(self.model, [' '.join(req)], shards=1)[0].split()
@@ -1092,6 +1109,27 @@ def main(tier, replay=None):
                 chk.cov['silent_error_plus_fatal_parity_read (measured, not judged)'] = R2.stats.get('measured', [])[:4]
             except Exception as e:
                 chk.violation('setup', 'adds scenario for the on-the-fly repair cases cannot be prepared: %s' % e, {}, no_input=True)
+        if gi == 0:
+            # ---- scrub: parity read EIO on every non-empty SUBSET of the levels of a stripe (np = 2, 3), the stripe healthy or already
+            # marked bad before: whatever the number of readable levels left, the stripe is marked bad, keeps its scrub time, every
+            # failed read is counted, an earlier bad mark stays
+            try:
+                import itertools
+                psc = []
+                for (pnd, pnp, pcaches) in ([(3, 2, [1, 8]), (4, 3, [3])] if quick else [(3, 2, [1, 3, 8, 128]), (4, 3, [1, 3, 128]), (2, 2, [3])]):
+                    scn4 = Scn(binary, shim, 'fresh', pnd, pnp)
+                    R4 = Runner(chk, scn4, model)
+                    nst = len(R4.ref.scrub_stripes)
+                    sets = [ls for r_ in range(1, pnp + 1) for ls in itertools.combinations(range(pnp), r_)]
+                    ps = [{'cache': c, 'target': ('parset', ls, j), 'errno': EIO, 'prebad': pb}
+                          for c in pcaches for ls in sets for j in (sorted({1, nst}) if quick else sorted({1, (nst + 1) // 2, nst})) for pb in (False, True)]
+                    pmap(R4.scrub_case, ps)
+                    psc += ps
+                    for k in total:
+                        total[k] += R4.stats[k]
+                chk.cov['scrub_parity_read_eio_level_subsets'] = {'runs': len(psc), 'rule': 'every non-empty subset of the parity levels (np 2 and 3) x first/last scrubbed stripe x stripe healthy / already bad'}
+            except Exception as e:
+                chk.violation('setup', 'scrub parity-subset scenario cannot be prepared: %s' % e, {}, no_input=True)
         if gi == 0:
             # ---- write faults collected while the loop visits stripes that need NO parity update (io_write_next with skip set): one
             # stripe really changes, every later one only has a file re-saved with the same bytes.  One-shot runs (scan + sync in the
